@@ -371,7 +371,7 @@ Proof.
 Qed.
 
 (* a knowledge base whose working memory points to an orphan node (not reachable from any rule entry) cannot be
-   cloned: NewKnowledgeBaseInstance fails (D10a: the nodes of a rejected rule) *)
+   cloned: NewKnowledgeBaseInstance fails (what the roll-back of a rejected resource prevents; the former finding D10a) *)
 Theorem clone_orphan_fails : forall kb start i, wf_kb kb -> In i (wm_ids (g_wm kb)) -> ~ reach kb i ->
   clone_kb (S (max_id (g_nodes kb))) start kb = Err.
 Proof.
@@ -583,7 +583,7 @@ Proof.
   exists kb', t, next. split; auto. split; auto. split; auto. split; auto. eapply clone_rules_same; eauto.
 Qed.
 
-(* which graphs cannot be cloned: an orphan in the working memory (D10a: what a rejected resource leaves behind) *)
+(* which graphs cannot be cloned: an orphan in the working memory (what a rejected resource left behind before the checkpoint: D10a) *)
 Definition C09_orphan_statement : Prop :=
   forall kb start i, wf_kb kb -> In i (wm_ids (g_wm kb)) -> ~ reach kb i -> clone_kb (S (max_id (g_nodes kb))) start kb = Err.
 Theorem C09_orphan_proved : C09_orphan_statement.
